@@ -12,6 +12,10 @@ def run_one(sid, tier, jobs):
     d = os.path.join(HERE, 'seeded', sid)
     meta = json.load(open(os.path.join(d, 'meta.json')))
     prop = meta['property']
+    if meta.get('neutralised'):
+        # a later repair of the library removed the mechanism this change relied on: it no longer breaks the property (its own
+        # demonstration passes with it applied), so there is nothing to catch
+        return sid, prop, 'neutralised', meta['neutralised'][:120], []
     scratch = tempfile.mkdtemp(prefix='verif-seed-%s-' % sid)
     try:
         subprocess.run(['rsync', '-a', '--exclude', '.git', '/repo/', scratch + '/'], check=True)
@@ -52,7 +56,7 @@ def main():
     with cf.ThreadPoolExecutor(max_workers=a.par) as ex:
         for sid, prop, status, tail, keys in ex.map(lambda i: run_one(i, a.tier, a.jobs), ids):
             print('%-8s %-12s %s %s' % (sid, status, tail, '; '.join(k[:110] for k in keys[:4])), flush=True)
-            if a.update_meta:
+            if a.update_meta and status != 'neutralised':
                 mp = os.path.join(HERE, 'seeded', sid, 'meta.json')
                 meta = json.load(open(mp))
                 db = meta.get('detected_by') or {}
